@@ -107,7 +107,7 @@ def run_world(case, ctx):
 	from gambit.query import query
 	W = Wd.get_world(ctx, case['world'], 'c09world')
 	try:
-		db = W.load_db()
+		db = W.load_db(case.get('multi_set'))
 	except Exception as e:
 		raise Violation('exception', f'load_from_dir raised {type(e).__name__}: {e}', case)
 	try:
@@ -185,7 +185,7 @@ def run_world(case, ctx):
 			db.signatures.close(); db.session.close(); db.session.get_bind().dispose()
 		except Exception:
 			pass
-	return {'nontrivial': tie, 'classes': ['world', f'nref={"<=16" if nref <= 16 else ">16"}', 'tie_in_prefix' if tie else 'no_tie'] + (['params_object_reused'] if case.get('reuse_params') else [])}
+	return {'nontrivial': tie, 'classes': ['world', f'nref={"<=16" if nref <= 16 else ">16"}', 'tie_in_prefix' if tie else 'no_tie'] + (['params_object_reused'] if case.get('reuse_params') else []) + (['second_genome_set_in_file'] if case.get('multi_set') else [])}
 
 
 def run_subproc(case, ctx):
@@ -259,7 +259,8 @@ def gen_case(draw, tier):
 	w = draw(Wd.world(max_refs=40, min_refs=1, max_queries=3, ties=True))
 	if which == 'world':
 		return {'kind': 'world', 'world': w, 'report_closest': draw(st.sampled_from([10, 1, 3, 'n', 'n+5'])),
-		        'chunksize': draw(st.sampled_from([1000, None, 1, 3, 7])), 'reuse_params': draw(st.sampled_from([False, True, False]))}
+		        'chunksize': draw(st.sampled_from([1000, None, 1, 3, 7])), 'reuse_params': draw(st.sampled_from([False, True, False])),
+		        'multi_set': draw(st.sampled_from([None, 'decoy_first', None, 'decoy_last']))}
 	return {'kind': 'subproc', 'world': w, 'cores': draw(st.sampled_from([[1, 4], [1], [4, 16], [2]]))}
 
 
